@@ -159,7 +159,7 @@ def run_reference(seed, slope):
 
 def run(ctx):
     q = ctx.quick
-    ctx.rule = ("TLC evaluates the four estimators of the constant model exactly on every history of 1-3 visits (all age orders, "
+    ctx.rule = ("TLC evaluates the four estimators of the constant model exactly on every history of 1-3 visits (1-4 in the thorough tier; all age orders, "
                 "values in {1,2,3,NaN}) and the conditional means of the LME random effects exactly (closed 1x1 / 2x2 inverse) on "
                 "integer cases (Benchmarks.tla: LastKnownExtendsLast, MeanBetween, Shrinks); every enumerated case is run through "
                 "ConstantModel.personalize / estimate and, with parameters injected through load_parameters, through "
@@ -170,7 +170,7 @@ def run(ctx):
     ctx.assumptions = ["agreement with the reference mixed-model library within 1e-4 relative (it is the library named by the property)"]
     tmp = os.path.join(ctx.tmp, "bm")
     os.makedirs(tmp, exist_ok=True)
-    res, cs = cases.enumerate_cases("MC_Benchmarks", "MC_Benchmarks.cfg", tmp, "bm")
+    res, cs = cases.enumerate_cases("MC_Benchmarks", "MC_Benchmarks.cfg" if q else "MC_Benchmarks_thorough.cfg", tmp, "bm")
     ctx.add_tlc("Benchmarks: all histories / LME cases (design + enumeration)", res)
     if res.violated:
         ctx.violation({"check": "design", "invariant": res.violated[0]}, f"Benchmarks.tla violates {res.violated}", replay=res.trace_text[:3000])
@@ -188,7 +188,7 @@ def run(ctx):
     for c in lmes:
         recs.append(run_lme(c["lme"], rnd, str(c["reuse"])))
         ctx.case(key=("lme", repr(c["lme"]), str(c["reuse"])))
-    for seed in ([1, 2] if q else [1, 2, 3, 4, 5]):
+    for seed in ([1, 2] if q else list(range(1, 11))):
         for slope in (False, True):
             recs.append(run_reference(ctx.seed + seed, slope))
             ctx.case(key=("lme_ref", seed, slope))
